@@ -279,25 +279,37 @@ def main():
     os.makedirs(OUT, exist_ok=True)
     files = {}
     meta = {}
+    failed = {}
     files.update(gen_unicode())
-    fr, mr = gen_rules()
-    files.update(fr)
-    meta.update(mr)
     try:
-        import translate_tables
-        ft, mt = translate_tables.generate(REPO)
-        files.update(ft)
-        meta.update(mt)
-    except ImportError:
-        pass
+        fr, mr = gen_rules()
+        files.update(fr)
+        meta.update(mr)
+    except TranslateError as e:
+        failed['Rules.lean'] = failed['Keywords.lean'] = str(e)
+    import translate_tables
+    # every generator is isolated: a shape the translator does not understand breaks only the obligations that import that module
+    for fn, outs in translate_tables.GENERATORS:
+        try:
+            ft, mt = fn(REPO)
+            files.update(ft)
+            meta.update(mt)
+        except TranslateError as e:
+            for o in outs:
+                failed[o] = str(e)
+        except Exception as e:
+            for o in outs:
+                failed[o] = 'translator crashed: %r' % (e,)
     changed = []
     for name, content in files.items():
         if write_if_changed(os.path.join(OUT, name), content):
             changed.append(name)
     hashes = {n: hashlib.sha1(c.encode('utf-8')).hexdigest() for n, c in files.items()}
     write_if_changed(os.path.join(OUT, 'manifest.json'),
-                     json.dumps({'hashes': hashes, 'meta': meta}, indent=0, sort_keys=True, default=str))
+                     json.dumps({'hashes': hashes, 'meta': meta, 'failed': failed}, indent=0, sort_keys=True, default=str))
     print('translate: %d files, changed: %s' % (len(files), ', '.join(changed) or '-'))
+    for o, msg in failed.items():
+        print('TRANSLATE-FAILED %s: %s' % (o, msg))
 
 
 if __name__ == '__main__':
